@@ -183,6 +183,80 @@ func tkPredFunc(p string) test.AssertErrorFunc {
 	panic("bad pred " + p)
 }
 
+// tkHelperBeh scripts a custom test.TypeHelper (protocol: trailing field `h:<start>,<addArg>,<emptyIs>,<eqMod>`;
+// `h:-` or no field = nil helper). Its three methods deliberately differ from the nil-helper defaults.
+type tkHelperBeh struct {
+	start   int // New(value) returns a fresh value holding start (+ value's number when addArg)
+	addArg  bool
+	emptyIs int // AssertEmpty reports iff the number != emptyIs
+	eqMod   int // AssertEqual(expected, actual) reports iff actual mod eqMod != expected (mod 0 = identity)
+}
+
+func parseTkHelper(s string) *tkHelperBeh {
+	s = strings.TrimPrefix(s, "h:")
+	if s == "-" {
+		return nil
+	}
+	f := strings.Split(s, ",")
+	if len(f) != 4 || (f[1] != "0" && f[1] != "1") {
+		panic("bad helper " + s)
+	}
+	return &tkHelperBeh{start: atoi(f[0]), addArg: f[1] == "1", emptyIs: atoi(f[2]), eqMod: atoi(f[3])}
+}
+
+func (b *tkHelperBeh) String() string {
+	if b == nil {
+		return "h:-"
+	}
+	return fmt.Sprintf("h:%d,%s,%d,%d", b.start, b01(b.addArg), b.emptyIs, b.eqMod)
+}
+
+// emod is the Euclidean remainder (what `%` on Int is in the Lean model); m = 0 is the identity
+func emod(a, m int) int {
+	if m == 0 {
+		return a
+	}
+	r := a % m
+	if r < 0 {
+		r += m
+	}
+	return r
+}
+
+// tkTypeHelper is the real test.TypeHelper[T] with the scripted semantics. fresh builds a new value
+// (a fresh pointer for the pointer kind) holding a number, num reads it (false: nil pointer).
+type tkTypeHelper[T any] struct {
+	b     tkHelperBeh
+	fresh func(x int) T
+	num   func(T) (int, bool)
+}
+
+func (h *tkTypeHelper[T]) New(value T) T {
+	x := h.b.start
+	if h.b.addArg {
+		if n, ok := h.num(value); ok {
+			x += n
+		}
+	}
+	return h.fresh(x)
+}
+
+func (h *tkTypeHelper[T]) AssertEmpty(t test.TestingT, value T, failInfo string) {
+	t.Helper()
+	if n, ok := h.num(value); !ok || n != h.b.emptyIs {
+		t.Errorf("%s: value %v is not empty (custom helper: empty is %d)", failInfo, n, h.b.emptyIs)
+	}
+}
+
+func (h *tkTypeHelper[T]) AssertEqual(t test.TestingT, expected, actual T, failInfo string) {
+	t.Helper()
+	e, ok1 := h.num(expected)
+	a, ok2 := h.num(actual)
+	if !ok1 || !ok2 || emod(a, h.b.eqMod) != e {
+		t.Errorf("%s: expected %d, actual %d (custom helper: modulo %d)", failInfo, e, a, h.b.eqMod)
+	}
+}
+
 func tkHook[C any](k byte, idx int) func(int, *C) error {
 	switch k {
 	case 'o':
@@ -195,8 +269,13 @@ func tkHook[C any](k byte, idx int) func(int, *C) error {
 	return nil
 }
 
-// runTk runs one helper over the cases with values of type T built by mk.
-func runTk[T any](helper string, cases []tkCase, mk func(idx, x int) T) {
+// runTk runs one helper over the cases with values of type T built by mk; hb != nil: the Unmarshal
+// helpers get a custom TypeHelper[T] (num reads the number a T holds).
+func runTk[T any](helper string, cases []tkCase, hb *tkHelperBeh, mk func(idx, x int) T, num func(T) (int, bool)) {
+	var th test.TypeHelper[T] // stays a nil interface without a scripted helper
+	if hb != nil {
+		th = &tkTypeHelper[T]{b: *hb, fresh: func(x int) T { return mk(0, x) }, num: num}
+	}
 	switch helper {
 	case "MT", "UT":
 		var cs []test.CaseText[T]
@@ -212,7 +291,7 @@ func runTk[T any](helper string, cases []tkCase, mk func(idx, x int) T) {
 		if helper == "MT" {
 			test.MarshalText(tkW.rec, cs)
 		} else {
-			test.UnmarshalText(tkW.rec, cs, nil)
+			test.UnmarshalText(tkW.rec, cs, th)
 		}
 	case "MJ", "UJ":
 		var cs []test.CaseJSON[T]
@@ -228,7 +307,7 @@ func runTk[T any](helper string, cases []tkCase, mk func(idx, x int) T) {
 		if helper == "MJ" {
 			test.MarshalJSON(tkW.rec, cs)
 		} else {
-			test.UnmarshalJSON(tkW.rec, cs, nil)
+			test.UnmarshalJSON(tkW.rec, cs, th)
 		}
 	case "MB", "UB":
 		var cs []test.CaseBinary[T]
@@ -247,7 +326,7 @@ func runTk[T any](helper string, cases []tkCase, mk func(idx, x int) T) {
 		if helper == "MB" {
 			test.MarshalBinary(tkW.rec, cs)
 		} else {
-			test.UnmarshalBinary(tkW.rec, cs, nil)
+			test.UnmarshalBinary(tkW.rec, cs, th)
 		}
 	default:
 		panic("bad helper " + helper)
@@ -255,39 +334,47 @@ func runTk[T any](helper string, cases []tkCase, mk func(idx, x int) T) {
 }
 
 // tkRun executes one `test.run` line; returns the canonical answer and whether a panic escaped.
-func tkRun(helper, typ string, cases []tkCase) (out string, escaped any) {
+func tkRun(helper, typ string, hb *tkHelperBeh, cases []tkCase) (out string, escaped any) {
 	w := &tkWorld{rec: &tkRec{cur: -1, reported: make([]int, len(cases))}}
 	for _, c := range cases {
 		w.scripts = append(w.scripts, c.script)
 	}
 	tkW = w
 	isMarshal := helper[0] == 'M'
+	if isMarshal {
+		hb = nil // the Marshal helpers take no TypeHelper
+	}
 	func() {
 		defer func() { escaped = recover() }()
 		switch typ {
 		case "tv":
-			runTk(helper, cases, func(idx, x int) tv {
+			runTk(helper, cases, hb, func(idx, x int) tv {
 				if isMarshal {
 					return tv{Idx: idx, X: x}
 				}
 				return tv{X: x}
-			})
+			}, func(v tv) (int, bool) { return v.X, true })
 		case "tp":
-			runTk(helper, cases, func(idx, x int) tp {
+			runTk(helper, cases, hb, func(idx, x int) tp {
 				if isMarshal {
 					return tp{Idx: idx, X: x}
 				}
 				return tp{X: x}
-			})
+			}, func(v tp) (int, bool) { return v.X, true })
 		case "ptp":
-			runTk(helper, cases, func(idx, x int) *tp {
+			runTk(helper, cases, hb, func(idx, x int) *tp {
 				if isMarshal {
 					return &tp{Idx: idx, X: x}
 				}
-				return &tp{X: x}
+				return &tp{X: x} // a fresh pointer every time
+			}, func(v *tp) (int, bool) {
+				if v == nil {
+					return 0, false
+				}
+				return v.X, true
 			})
 		case "tn":
-			runTk(helper, cases, func(idx, x int) tn { return tn{X: x} })
+			runTk(helper, cases, hb, func(idx, x int) tn { return tn{X: x} }, func(v tn) (int, bool) { return v.X, true })
 		default:
 			panic("bad type " + typ)
 		}
@@ -316,12 +403,21 @@ func tkRun(helper, typ string, cases []tkCase) (out string, escaped any) {
 	return b.String(), nil
 }
 
+// splitTkHelper takes the optional trailing `h:` field off the case fields
+func splitTkHelper(f []string) ([]string, *tkHelperBeh) {
+	if n := len(f); n > 0 && strings.HasPrefix(f[n-1], "h:") {
+		return f[:n-1], parseTkHelper(f[n-1])
+	}
+	return f, nil
+}
+
 func testRun(f []string) string {
-	cases := make([]tkCase, 0, len(f)-2)
-	for _, s := range f[2:] {
+	cs, hb := splitTkHelper(f[2:])
+	cases := make([]tkCase, 0, len(cs))
+	for _, s := range cs {
 		cases = append(cases, parseTkCase(s))
 	}
-	out, _ := tkRun(f[0], f[1], cases)
+	out, _ := tkRun(f[0], f[1], hb, cases)
 	return out
 }
 
@@ -331,6 +427,7 @@ func testRun(f []string) string {
 
 type tkVerdict struct {
 	applicable, satisfied, k1, offDomain bool
+	byValue                              bool // hooks, error and predicate are fine: the verdict hangs on the data/value judgement alone
 }
 
 func tkPredMet(p string, errText string, hasErr bool) (met bool, k1 bool) {
@@ -358,7 +455,21 @@ func tkPredMet(p string, errText string, hasErr bool) (met bool, k1 bool) {
 	return false, false
 }
 
-func tkOracle(helper string, c tkCase) tkVerdict {
+// tkHelperAccepts: does the scripted helper take `actual` for `expected`? Own arithmetic: actual is
+// expected plus a whole number of moduli and expected is a proper remainder (modulus 0: plain equality).
+func tkHelperAccepts(hb *tkHelperBeh, expected, actual int) bool {
+	if hb.eqMod == 0 {
+		return expected == actual
+	}
+	if expected < 0 || expected >= hb.eqMod {
+		return false
+	}
+	d := actual - expected
+	return (d/hb.eqMod)*hb.eqMod == d
+}
+
+// hb is the TypeHelper given to an Unmarshal helper (nil = none)
+func tkOracle(helper string, hb *tkHelperBeh, c tkCase) tkVerdict {
 	isMarshal := helper[0] == 'M'
 	binary := helper[1] == 'B'
 	var v tkVerdict
@@ -389,6 +500,13 @@ func tkOracle(helper string, c tkCase) tkVerdict {
 			hasErr, errText, producedNil = true, "panic: "+c.script.mText+"\n", true
 		}
 	} else {
+		// the receiver starts as a zero value, or as whatever the custom helper's New makes of the case's value
+		if hb != nil {
+			val = hb.start
+			if hb.addArg {
+				val += c.value
+			}
+		}
 		if c.script.uSet {
 			val = c.script.uVal
 		}
@@ -403,14 +521,17 @@ func tkOracle(helper string, c tkCase) tkVerdict {
 		if hasErr {
 			return v // unexpected error
 		}
+		v.byValue = true
 		if isMarshal {
 			if binary {
 				v.satisfied = (c.dataNil == producedNil) && string(c.data) == string(produced)
 			} else {
 				v.satisfied = string(c.data) == string(produced)
 			}
-		} else {
+		} else if hb == nil {
 			v.satisfied = val == c.value
+		} else {
+			v.satisfied = tkHelperAccepts(hb, c.value, val) // the helper's verdict replaces the comparison
 		}
 		return v
 	}
@@ -419,6 +540,7 @@ func tkOracle(helper string, c tkCase) tkVerdict {
 		v.k1 = k1
 		return v
 	}
+	v.byValue = true
 	if isMarshal {
 		// an expected error must come without a result; an empty non-nil slice is outside the
 		// property's wording ("non-empty result") — flagged as off-domain
@@ -426,8 +548,10 @@ func tkOracle(helper string, c tkCase) tkVerdict {
 			v.offDomain = true
 		}
 		v.satisfied = producedNil
-	} else {
+	} else if hb == nil {
 		v.satisfied = val == 0
+	} else {
+		v.satisfied = val == hb.emptyIs // the helper's idea of an empty value
 	}
 	return v
 }
@@ -446,10 +570,15 @@ func propC20(c *Ctx) {
 		}
 		return hx(b)
 	}
-	genCase := func(marshal bool) string {
+	genCase := func(marshal bool, hb *tkHelperBeh) string {
 		r := c.R
 		constraint := []int{0, 0, 0, 1, 2, 3}[r.Intn(6)]
-		hook := func() string { return []string{"n", "o", "n", "o", "o", "e", "p"}[r.Intn(7)] }
+		hook := func() string {
+			if hb != nil && r.Intn(2) == 0 {
+				return []string{"n", "o"}[r.Intn(2)] // let the custom helper have the last word more often
+			}
+			return []string{"n", "o", "n", "o", "o", "e", "p"}[r.Intn(7)]
+		}
 		// marshal behaviour
 		data := [][]byte{[]byte("abc"), []byte("x"), {}, []byte("{\"a\":1}")}[r.Intn(4)]
 		mkind := []string{"d", "d", "d", "e", "e", "ed", "p", "dn", "ez"}[r.Intn(9)]
@@ -472,6 +601,9 @@ func propC20(c *Ctx) {
 		}
 		// unmarshal behaviour
 		val := r.Intn(3)
+		if hb != nil {
+			val = r.Intn(5) // wide enough to wrap around the helper's modulus
+		}
 		ukind := []string{"o", "o", "o", "k", "e", "e", "es", "p", "ps"}[r.Intn(9)]
 		umsg := msgs[r.Intn(len(msgs))]
 		var ubeh, uErrText string
@@ -524,6 +656,14 @@ func propC20(c *Ctx) {
 				pred = "any"
 			}
 		}
+		if hb != nil && r.Intn(3) > 0 {
+			// custom helper: mostly cases that get as far as asking it (predicate iff the call fails)
+			if uErrText == "" {
+				pred = "-"
+			} else if pred == "-" {
+				pred = "any"
+			}
+		}
 		// expectations: mostly right, sometimes wrong
 		expData, expNil := data, false
 		if mkind == "dn" {
@@ -542,6 +682,32 @@ func propC20(c *Ctx) {
 		if r.Intn(6) == 0 {
 			expVal = val + 1
 		}
+		if hb != nil {
+			// with a custom helper: mostly what *it* accepts, sometimes what only plain equality would
+			// accept (kept from above), sometimes off by one
+			right := 0
+			switch {
+			case ukind != "k":
+				right = emod(val, hb.eqMod)
+			case !hb.addArg:
+				right = emod(hb.start, hb.eqMod)
+			default:
+				for e := 0; e < 6; e++ {
+					if emod(hb.start+e, hb.eqMod) == e {
+						right = e
+						break
+					}
+				}
+			}
+			switch k := r.Intn(10); {
+			case k < 6:
+				expVal = right
+			case k < 7:
+				expVal = right + 1
+			case k < 8 && hb.eqMod > 0:
+				expVal = right + hb.eqMod // equal modulo, but not a remainder: the asymmetric helper rejects it
+			}
+		}
 		return fmt.Sprintf("%d/%s/%s/%s/%s/%s/%s/%d", constraint, hook(), hook(), pred, mbeh, ubeh, optB(expData, expNil), expVal)
 	}
 	helpers := []string{"MT", "UT", "MB", "UB", "MJ", "UJ"}
@@ -550,7 +716,8 @@ func propC20(c *Ctx) {
 	if c.Thorough {
 		iters = 400000
 	}
-	k1Seen := 0
+	k1Seen, withHelper := 0, 0
+	helperVsNil := map[string]int{} // custom helper's verdict vs what the nil helper would have said
 	for it := 0; it < iters; it++ {
 		helper := helpers[c.R.Intn(6)]
 		typ := types[c.R.Intn(len(types))]
@@ -558,11 +725,21 @@ func propC20(c *Ctx) {
 		if it%10 == 0 {
 			n = 1
 		}
+		// a custom TypeHelper in about a third of the Unmarshal-helper runs (the Marshal helpers take none)
+		var hb *tkHelperBeh
+		if helper[0] == 'U' && c.R.Intn(3) == 0 {
+			hb = &tkHelperBeh{start: []int{0, 0, 1, 2, 5}[c.R.Intn(5)], addArg: c.R.Intn(3) == 0, eqMod: []int{0, 0, 2, 3}[c.R.Intn(4)]}
+			hb.emptyIs = []int{0, hb.start, hb.start, 1, 2, 7}[c.R.Intn(6)]
+			withHelper++
+		}
 		var cs []string
 		for i := 0; i < n; i++ {
-			cs = append(cs, genCase(helper[0] == 'M'))
+			cs = append(cs, genCase(helper[0] == 'M', hb))
 		}
 		line := strings.TrimRight("test.run "+helper+" "+typ+" "+strings.Join(cs, " "), " ")
+		if hb != nil {
+			line += " " + hb.String()
+		}
 		got := c.Op(line)
 		// ---- direct oracle
 		c.Check(line)
@@ -593,7 +770,16 @@ func propC20(c *Ctx) {
 			continue
 		}
 		for i, cs := range cases {
-			v := tkOracle(helper, cs)
+			v := tkOracle(helper, hb, cs)
+			if hb != nil && v.applicable && !v.byValue {
+				helperVsNil["helper-not-asked"]++
+			} else if hb != nil && v.applicable {
+				if nv := tkOracle(helper, nil, cs); nv.satisfied != v.satisfied {
+					helperVsNil[fmt.Sprintf("helper-satisfied=%v,nil-satisfied=%v", v.satisfied, nv.satisfied)]++
+				} else {
+					helperVsNil[fmt.Sprintf("both-satisfied=%v", v.satisfied)]++
+				}
+			}
 			reported := i < len(marks) && marks[i] == 'r'
 			switch {
 			case !v.applicable:
@@ -619,4 +805,5 @@ func propC20(c *Ctx) {
 		}
 	}
 	c.Note("K1 instances seen: %d", k1Seen)
+	c.Note("runs with a custom TypeHelper: %d; applicable cases by verdict: %v", withHelper, helperVsNil)
 }
